@@ -71,6 +71,9 @@ type httpsService struct {
 
 func (s *httpsService) SetChannel(c pushers.Channel) {
 	s.c = c
+
+	// the embedded http service reports the requests of established connections
+	s.httpService.SetChannel(c)
 }
 
 func (s *httpsService) getCertificate(hello *tls.ClientHelloInfo) (*tls.Certificate, error) {
@@ -137,9 +140,13 @@ func (s *httpsService) Handle(ctx context.Context, conn net.Conn) error {
 
 	tlsConn := tls.Server(conn, &tls.Config{
 		Certificates: []tls.Certificate{},
-		GetCertificate: func(hello *tls.ClientHelloInfo) (*tls.Certificate, error) {
+		// called for every ClientHello, also for those rejected before a certificate is chosen
+		GetConfigForClient: func(hello *tls.ClientHelloInfo) (*tls.Config, error) {
 			ja3Digest = hello.JA3Digest()
 			serverName = hello.ServerName
+			return nil, nil
+		},
+		GetCertificate: func(hello *tls.ClientHelloInfo) (*tls.Certificate, error) {
 			return s.getCertificate(hello)
 		},
 	})
